@@ -91,3 +91,19 @@ def keys (d : Kvs) : List String := d.map (·.1)
 
 end Kvs
 end Cinco
+
+namespace Cinco
+mutual
+  /-- the Python dict invariant, at every depth: no key twice in a map -/
+  def Tree.wf : Tree → Bool
+    | .list xs => Tree.wfList xs
+    | .dict kvs => Tree.wfKvs kvs
+    | _ => true
+  def Tree.wfList : List Tree → Bool
+    | [] => true
+    | x :: xs => Tree.wf x && Tree.wfList xs
+  def Tree.wfKvs : List (String × Tree) → Bool
+    | [] => true
+    | (k, v) :: rest => !(rest.map (·.1)).contains k && Tree.wf v && Tree.wfKvs rest
+end
+end Cinco
